@@ -38,6 +38,8 @@ type Contract struct {
 	Line    int
 	Assume  string // name of the assumption family (A-XML ...) for lib contracts
 	Pure    bool
+	WritesFresh bool
+	WritesProps []string
 }
 
 type PureDef struct {
@@ -149,7 +151,7 @@ func (sp *Specs) parseFile(path string, goFile bool) error {
 	}
 	// join continuation lines: a line whose first word is not a keyword continues the previous one
 	keywords := map[string]bool{"onalloc": true, "func": true, "lib": true, "pure": true, "abstract": true, "ghost": true, "requires": true, "ensures": true,
-		"loop": true, "assigns": true, "fresh": true, "foreign": true, "names": true, "inline": true, "property": true, "assume": true, "canary": true, "cover": true, "effectfree": true, "enter": true, "leave": true}
+		"loop": true, "assigns": true, "fresh": true, "foreign": true, "names": true, "inline": true, "property": true, "assume": true, "canary": true, "cover": true, "effectfree": true, "enter": true, "leave": true, "writes": true}
 	var joined []line
 	for _, l := range lines {
 		w := strings.Fields(l.s)[0]
@@ -264,6 +266,15 @@ func (sp *Specs) parseFile(path string, goFile bool) error {
 			case "foreign":
 				for _, p := range strings.Split(rest, ",") {
 					cur.Foreign = append(cur.Foreign, strings.TrimSpace(p))
+				}
+			case "writes":
+				// "writes fresh [C15]": every store performed while this function runs (callees included) targets an object
+				// allocated during the call; optional property label for the obligations
+				cur.WritesFresh = true
+				for _, w := range f[1:] {
+					if propRe.MatchString(w + ".") {
+						cur.WritesProps = strings.Split(w, ",")
+					}
 				}
 			case "inline":
 				cur.Inline = true
